@@ -221,7 +221,7 @@ impl Property for C15 {
 		"C15"
 	}
 	fn rule(&self) -> &'static str {
-		"each case generates a listener (position, unit-quaternion orientation), a spatial track (emitter coincident with the listener, on a listener axis, inside the distance range, or anywhere up to 1e5 units away; distances min < max; attenuation easing or none; strength in [0,1]) and a DC input (equal or unequal stereo), renders the steady-state output frame through the manager and checks it against the documented model level = attenuation(distance) x ear gains (f64, tolerance scaled with coordinate magnitude) and one of the relations between renders from fresh managers: attenuation 1 inside the minimum distance, 0 at or beyond the maximum, non-increasing along a ray; ear gains within [1-strength, 1]; emitter on the listener's right gives right >= left; mirroring the emitter through the listener's median plane swaps the channels; a rigid motion of listener and emitter together leaves the output unchanged; strength 0 passes stereo unpanned; a dropped listener (or one whose slot has been reused) silences the track exactly from the next callback; a FromListenerDistance parameter (on the track, on a non-spatial child and on a non-spatial grandchild) equals the mapping of the true distance; position / orientation tweens end at the static result; nested spatial tracks use their own listener and position. Non-trivial = emitter off the listener's axes and strictly between min and max; distinct = distinct decoded choices."
+		"each case generates a listener (position, unit-quaternion orientation), a spatial track (emitter coincident with the listener, on a listener axis, inside the distance range, or anywhere up to 1e5 units away; distances min < max; attenuation easing or none; strength in [0,1]) and a DC input (equal or unequal stereo), renders the steady-state output frame through the manager and checks it against the documented model level = attenuation(distance) x ear gains (f64, tolerance scaled with coordinate magnitude) and one of the relations between renders from fresh managers: attenuation 1 inside the minimum distance, 0 at or beyond the maximum, non-increasing along a ray; ear gains within [1-strength, 1]; emitter on the listener's right gives right >= left; mirroring the emitter through the listener's median plane swaps the channels; a rigid motion of listener and emitter together leaves the output unchanged; strength 0 passes stereo unpanned; a dropped listener (or one whose slot has been reused) silences the track exactly from the next callback; a FromListenerDistance parameter (on the track, on a non-spatial child and on a non-spatial grandchild) equals the mapping of the true distance; position / orientation tweens end at the static result, and the same move commanded with instant tweens before the first callback is complete from the second callback on; nested spatial tracks use their own listener and position. Non-trivial = emitter off the listener's axes and strictly between min and max; distinct = distinct decoded choices."
 	}
 	fn assumptions(&self) -> Vec<String> {
 		vec![
@@ -416,6 +416,31 @@ impl Property for C15 {
 				}
 				let o = last_frame(&mut mgr, g.ibs)?;
 				ensure!(close(o.0, out.0 as f64, tol * 4.0) && close(o.1, out.1 as f64, tol * 4.0), "tween-ends-at-static-result", "after tweening listener and emitter to the geometry the output is {o:?}, a scene built there gives {out:?}; {g:?}");
+				// the same move commanded before the very first callback (instant tweens): the first
+				// callback carries the move, from the second one on the scene is where it was sent
+				let mut mgr = default_manager(48000, g.ibs);
+				let mut listener = mgr.add_listener(v(start_pos), q(start_rot)).map_err(|_| Failure::simple("setup", "listener"))?;
+				let mut track = mgr
+					.add_spatial_sub_track(&listener, v(start_em), SpatialTrackBuilder::new().distances((g.min, g.max)).attenuation_function(g.attenuation).spatialization_strength(g.strength))
+					.map_err(|_| Failure::simple("setup", "track"))?;
+				track.play(ProbeSoundData::new(Signal::Dc(g.input.0, g.input.1), None)).map_err(|_| Failure::simple("setup", "sound"))?;
+				let instant = Tween {
+					duration: Duration::ZERO,
+					..Default::default()
+				};
+				listener.set_position(v(g.listener_pos), instant);
+				listener.set_orientation(q(g.listener_rot), instant);
+				track.set_position(v(g.emitter), instant);
+				let first = mgr.backend_mut().callback(g.ibs, 2);
+				if let Some(p) = &first.guard.panic {
+					return Err(Failure::panic("", p));
+				}
+				let second = mgr.backend_mut().callback(g.ibs, 2);
+				if let Some(p) = &second.guard.panic {
+					return Err(Failure::panic("", p));
+				}
+				let o2 = second.frame(0, 2);
+				ensure!(close(o2.0, out.0 as f64, tol * 4.0) && close(o2.1, out.1 as f64, tol * 4.0), "command-before-first-callback-moves-the-scene", "listener and emitter were sent to the geometry before the first callback (instant tweens); the first frame of the second callback is {o2:?}, a scene built there gives {out:?}; {g:?}");
 			}
 			10 => {
 				class = "distance-parameter-set-through-handle";
